@@ -19,20 +19,31 @@ def run(ctx: Ctx):
     # normalisation divides by the reference length (not the hypothesis length), in both result forms
     f = pkg.func("_string::_string_matching")
     rel = f.module.relname
+    from sa.astutil import guards_of, parent_map
+    pm = parent_map(f.node)
+    # roles recovered by dataflow: the length vectors are the results of _lens_from_eos(<ref|hyp>, eos, 0)
+    lens = {}
+    for n in own_nodes(f.node):
+        if isinstance(n, ast.Assign) and isinstance(n.value, ast.Call) and call_name(n.value) == "_lens_from_eos" \
+                and isinstance(n.targets[0], ast.Name) and n.value.args and u(n.value.args[0]) in ("ref", "hyp"):
+            lens[u(n.value.args[0])] = n.targets[0].id
+    if set(lens) != {"ref", "hyp"}:
+        from sa.model import AnalysisError
+        raise AnalysisError("C01: the reference / hypothesis length vectors (results of _lens_from_eos) were not found")
+    RL, HL = lens["ref"], lens["hyp"]
     divs = [n for n in own_nodes(f.node) if isinstance(n, ast.Assign) and isinstance(n.value, ast.BinOp)
             and isinstance(n.value.op, ast.Div) and u(n.targets[0]) == u(n.value.left)]
-    ok = len(divs) == 2 and all(u(n.value.right).startswith("ref_lens.to(") for n in divs)
+    ok = len(divs) == 2 and all(u(n.value.right).startswith(RL + ".to(") for n in divs)
     col.ob("G16", "S2", f"{rel}::_string_matching::norm-by-reference-length", ok,
            f"normalisation divides by {[u(n.value.right) for n in divs]}; expected the reference length in both the "
            f"final and the per-prefix form", rel, f.line, sample=[u(n) for n in divs])
-    from sa.astutil import guards_of, parent_map
-    pm = parent_map(f.node)
     col.ob("G16", "S2", f"{rel}::_string_matching::norm-only-on-request",
            all(any(u(t) == "norm" and pol for t, pol in guards_of(pm, n)) for n in divs),
            "a division by the reference length happens without norm=True", rel, f.line)
     # lengths: include_eos adds exactly one, taken back when the sequence has no eos
-    plus = [n for n in own_nodes(f.node) if isinstance(n, ast.Assign) and u(n.value) in ("ref_lens + 1", "hyp_lens + 1")]
-    col.ob("G16", "S2", f"{rel}::_string_matching::include-eos-adds-one", sorted(u(n.targets[0]) for n in plus) == ["hyp_lens", "ref_lens"]
+    plus = [n for n in own_nodes(f.node) if isinstance(n, ast.Assign) and u(n.value) in (f"{RL} + 1", f"{HL} + 1")
+            and u(n.targets[0]) == u(n.value.left)]
+    col.ob("G16", "S2", f"{rel}::_string_matching::include-eos-adds-one", sorted(u(n.targets[0]) for n in plus) == sorted([HL, RL])
            and all(any(u(t) == "include_eos" and pol for t, pol in guards_of(pm, n)) for n in plus),
            "include_eos does not add exactly one to both the reference and the hypothesis lengths", rel, f.line)
     plumbing(ctx, "S1")
